@@ -98,7 +98,9 @@ def _ulp_perturbed(case, problem, seed):
     u = poly.Fraction(1, 2**52)
     inits = [[str(poly.Fraction(x) * (1 + int(r.choice([-1, 1])) * u)) for x in blk] for blk in problem["inits"]]
     steps = [float(h) * (1.0 + float(r.choice([-1.0, 1.0])) * 2.0**-52) for h in case["steps"]]
-    return {**case, "steps": steps}, {**problem, "inits": inits}
+    # the base output scale moved by one ulp re-rounds every covariance factor along the way (with zeroth-order
+    # linearisation and no calibration the covariances do not depend on the initial values at all)
+    return {**case, "steps": steps, "base_p": 1.0 + float(r.choice([-1.0, 1.0])) * 2.0**-52}, {**problem, "inits": inits}
 
 
 def _solve(case, fact, problem, *, ts, strategy=None):
@@ -107,7 +109,8 @@ def _solve(case, fact, problem, *, ts, strategy=None):
     from probdiffeq import ivpsolve
 
     strategy = strategy or case["strategy"]
-    cfg = configs.build(fact=fact, strategy=strategy, cal=case["cal"], ts=ts, nu=case["nu"], problem=problem, relinearize=case["relin"])
+    cfg = configs.build(fact=fact, strategy=strategy, cal=case["cal"], ts=ts, nu=case["nu"], problem=problem, relinearize=case["relin"],
+                        base_scale=case.get("base_p"))
     t0 = cfg["prob"]["t0"]
     grid = np.concatenate([[t0], t0 + np.cumsum(case["steps"])])
     if case["kind"] == "adaptive":
